@@ -168,6 +168,10 @@ def run(ctx, rep):
     c = Codec(facts)
     writer_table(facts, rep, "C13-FIDELITY", facts.one(r"^write::write_central_directory_header$"), "CDH", spec, c)
     reader_table(facts, rep, "C13-FIDELITY", facts.one(r"^read::central_header_to_zip_file$"), "CDH", spec, c, adt_re=r"ZipFileData")
+    from rules.C02 import sib_rules
+    sib_rules(ctx, facts, rep)         # reported as C13/C02-SIB: re-emitted central records and local headers carry the same name bytes / flags
+    from rules.C02 import seekabs_rules
+    seekabs_rules(facts, rep)          # reported as C13/C02-SEEKABS: appended entries overwrite the old directory from absolute offsets
     from rules.C01 import msdos_arg_order
     msdos_arg_order(facts, rep, "C13-FIDELITY")     # the re-emitted timestamp is the recorded one (the parser does not normalise it)
     rep.floor("C13-SAMEPARSER", 4)
